@@ -315,6 +315,56 @@ func (vc *VC) setHeap(st *State, name, sort, term string) {
 	if vc.writeLog != nil {
 		vc.writeLog[name] = true
 	}
+	// read-over-write facts stated explicitly (they are consequences of the definition; stating them puts the
+	// terms into the solver's term graph so that quantifier patterns over the new heap match)
+	if parts := splitTop(term); len(parts) == 4 && parts[0] == "store" {
+		k, v := parts[2], parts[3]
+		if inner := splitTop(v); len(inner) == 4 && inner[0] == "store" && inner[1] == fmt.Sprintf("(select %s %s)", parts[1], k) {
+			vc.emit(fmt.Sprintf("(assert (= (select (select %s %s) %s) %s))", n, k, inner[2], inner[3]))
+		} else {
+			vc.emit(fmt.Sprintf("(assert (= (select %s %s) %s))", n, k, v))
+		}
+	}
+}
+
+// splitTop splits "(f a b c)" into [f a b c] at the top level (nil if s is not a parenthesised application).
+func splitTop(s string) []string {
+	s = strings.TrimSpace(s)
+	if len(s) < 2 || s[0] != '(' || s[len(s)-1] != ')' {
+		return nil
+	}
+	s = s[1 : len(s)-1]
+	var parts []string
+	depth, start := 0, -1
+	for i := 0; i < len(s); i++ {
+		c := s[i]
+		switch {
+		case c == '(':
+			if depth == 0 && start < 0 {
+				start = i
+			}
+			depth++
+		case c == ')':
+			depth--
+			if depth == 0 {
+				parts = append(parts, s[start:i+1])
+				start = -1
+			}
+		case c == ' ' || c == '\n' || c == '\t':
+			if depth == 0 && start >= 0 {
+				parts = append(parts, s[start:i])
+				start = -1
+			}
+		default:
+			if depth == 0 && start < 0 {
+				start = i
+			}
+		}
+	}
+	if start >= 0 {
+		parts = append(parts, s[start:])
+	}
+	return parts
 }
 
 func (vc *VC) bumpAlloc(st *State) string {
